@@ -289,6 +289,26 @@ def handle (j : Json) : R (List (String × Json)) := do
           | _ => pure [("read", Json.bool false)]
         return [("model", model), ("oracle", Json.mkObj orc),
                 ("info", Json.mkObj [("routes", jNat (expected.filter (· ≠ [])).length)])]
+  else if k == "bind" then
+    let fmt ← strF j "fmt"
+    let res ← parseModel fmt rounded lines
+    let fv ← fileView fmt fileJ
+    let pre := (← listF asInt j "pre").map fv.jobId
+    let target := fv.jobId (← intF j "target")
+    let jOB : Option Bool → Json := fun o => match o with | some b => Json.bool b | none => Json.null
+    let model := match res with
+      | .ok P => Json.mkObj [("append_ok", jOB (dumpAppendOk (observe P) pre target))]
+      | .error e => Json.mkObj [("err", Json.str (errName e))]
+    -- the file's own verdict (independent of the reader model): the instance it denotes, ids in job numbering
+    let off : Int := if fmt == "tsp" then 1 else 0
+    let spec := instAppendOk rounded fv.pd off fv.meaning pre target
+    let implOk := (impl.getObjVal? "append_ok").toOption.bind (fun b => b.getBool?.toOption)
+    return [("model", model),
+            ("oracle", Json.mkObj [("harness_text_is_print_of_file", Json.bool (fv.printed == lines)),
+                                   ("file_wellformed", Json.bool fv.wf),
+                                   ("tour_before_is_feasible", Json.bool spec.isSome),
+                                   ("constraints_bind_as_file", Json.bool (spec.isSome && implOk == spec))]),
+            ("info", Json.mkObj [("stops", jNat (pre.length + 1)), ("spec", jOB spec)])]
   else throw s!"unknown case kind {k}"
 
 end Drv.C13
